@@ -70,9 +70,16 @@ Spec == Init /\ [][Next]_vars
 \* inner request may reach the origin
 AuthKinds == {"dns", "dnsUpper", "ipv4", "ipv6"}
 SniKinds == {"absent", "same", "other"}
-OriginCerts == {"valid", "expired", "wrongname", "untrusted"}
+\* proxyname: a certificate that is valid - for the name of the upstream proxy, not for the origin
+OriginCerts == {"valid", "expired", "wrongname", "untrusted", "proxyname"}
+\* prior: what the proxy did before the session - nothing, or it tunnelled a CONNECT to a host excluded from interception
+\* through an upstream proxy reached over TLS (which the session's own requests then pass through as well); the origin
+\* is verified against the name the client asked for whatever came before
 MCases == { c \in [auth : AuthKinds, port : {443, 8443}, sni : SniKinds, origin : OriginCerts, excluded : BOOLEAN, xfp : {"absent", "https", "http"},
-                     form : {"origin", "absHttps", "absHttp"}] :       \* request-target of the inner request: origin-form or an absolute URL
+                     form : {"origin", "absHttps", "absHttp"},       \* request-target of the inner request: origin-form or an absolute URL
+                     prior : {"none", "tunnelViaTlsUpstream"}] :
+             /\ (c.prior # "none" => c.auth = "dns" /\ c.port = 443 /\ c.sni # "other" /\ ~c.excluded /\ c.xfp = "absent" /\ c.form = "origin")
+             /\ (c.origin = "proxyname" => c.prior # "none")
              /\ (c.form # "origin" => ~c.excluded /\ c.xfp = "absent" /\ c.sni # "other" /\ c.port = 443)
              /\ (c.auth \in {"ipv4", "ipv6"} => c.sni = "absent")        \* clients send no SNI for IP literals
              /\ (c.excluded => c.sni # "other" /\ c.xfp = "absent" /\ c.auth # "dnsUpper")
